@@ -136,7 +136,10 @@ fn build(c: &Case) -> Result<Built, String> {
     if !fields.is_empty() {
         doc.set_form_manager(fm);
     }
-    let cfg = match c.cfg % 3 {
+    let cfg = match c.cfg % 4 {
+        // object streams (~3 % of the cases: every read of such a file costs seconds): resource dictionaries are then
+        // written by the object-stream serializer
+        3 => oxidize_pdf::writer::WriterConfig { use_xref_streams: true, use_object_streams: true, pdf_version: "1.5".into(), compress_streams: true, incremental_update: false },
         0 => oxidize_pdf::writer::WriterConfig { use_xref_streams: false, use_object_streams: false, pdf_version: "1.4".into(), compress_streams: false, incremental_update: false },
         1 => oxidize_pdf::writer::WriterConfig { use_xref_streams: false, use_object_streams: false, pdf_version: "1.7".into(), compress_streams: true, incremental_update: false },
         _ => oxidize_pdf::writer::WriterConfig { use_xref_streams: true, use_object_streams: false, pdf_version: "1.5".into(), compress_streams: true, incremental_update: false },
@@ -373,7 +376,7 @@ fn strategy() -> impl Strategy<Value = Case> {
         prop::collection::vec(name(), 0..3),
         prop::collection::vec(name(), 0..3),
         prop::collection::vec(name(), 0..4),
-        0u8..3,
+        prop_oneof![32 => 0u8..3, 1 => Just(3u8)],
         prop::bool::weighted(0.15),
     )
         .prop_map(|(imgs, forms, fonts, fields, cfg, twins)| {
@@ -399,7 +402,7 @@ fn strategy() -> impl Strategy<Value = Case> {
 
 fn run(ctx: &Ctx) {
     ctx.set_shrink_budget(600);
-    ctx.run_sub("names", ctx.tier.pick(2_000, 40_000), strategy, check);
+    ctx.run_sub("names", ctx.tier.pick(5_000, 60_000), strategy, check);
 }
 
 fn replay(ctx: &Ctx, sub: &str, case: &Value) -> Result<Outcome, String> {
